@@ -255,24 +255,32 @@ def gen_coqproject() -> None:
         cp.write_text(text)
 
 
-def make_all(jobs: int = 16, clean: bool = False, prop: str | None = None) -> tuple[bool, str]:
-    """Full .vo build (incremental) of /verif/coq, or of what one property needs
-    (its Properties_Cxx.vo and everything that depends on).  Serialised by a file lock so
-    that several checks started at once do not race on the same .vo files."""
+def make_all(jobs: int = 16, clean: bool = False, prop: str | None = None, dirs: list[str] | None = None) -> tuple[bool, str]:
+    """Full .vo build (incremental).  Without `prop`: every theory file (MANIFEST.setup_cmd).  With `prop`: Common/ plus that
+    property's directory through its own generated Makefile, so that a check depends on nothing else.  Serialised by a file lock
+    so that several checks started at once do not race on the same .vo files."""
     SCRATCH.mkdir(exist_ok=True)
     with open(SCRATCH / "make.lock", "w") as lock:
         fcntl.flock(lock, fcntl.LOCK_EX)
         gen_coqproject()
-        if not (COQ / "Makefile").exists() or (COQ / "_CoqProject").stat().st_mtime > (COQ / "Makefile").stat().st_mtime:
-            rc, out = _run(["coq_makefile", "-f", "_CoqProject", "-o", "Makefile"], 120, cwd=COQ)
+        if prop is None:
+            cp, mk = "_CoqProject", "Makefile"
+        else:
+            cp, mk = f"_CoqProject.{prop}", f"Makefile.{prop}"
+            files = sorted(
+                str(f.relative_to(COQ)) for d in (dirs or ["Common", prop]) for f in (THEORIES / d).glob("*.v") if not f.name.startswith("_")
+            )
+            text = (COQ / "_CoqProject").read_text().splitlines()[:2] + files
+            text = "\n".join(text) + "\n"
+            if not (COQ / cp).exists() or (COQ / cp).read_text() != text:
+                (COQ / cp).write_text(text)
+        if not (COQ / mk).exists() or (COQ / cp).stat().st_mtime > (COQ / mk).stat().st_mtime:
+            rc, out = _run(["coq_makefile", "-f", cp, "-o", mk], 120, cwd=COQ)
             if rc != 0:
                 return False, out
         if clean:
-            _run(["make", "clean"], 300, cwd=COQ)
-        targets = []
-        if prop is not None:
-            targets = [str(f.relative_to(COQ)) + "o" for f in sorted((THEORIES / prop).glob("*.v")) if not f.name.startswith("_")]
-        rc, out = _run(["timeout", "1500", "make", f"-j{jobs}", *targets], 1600, cwd=COQ)
+            _run(["make", "-f", mk, "clean"], 300, cwd=COQ)
+        rc, out = _run(["timeout", "1500", "make", "-f", mk, f"-j{jobs}"], 1600, cwd=COQ)
         return rc == 0, out
 
 
@@ -431,7 +439,7 @@ class Check:
 
     # ---- stage 1: proofs
     def proofs(self, dirs: list[str], extra_property_files: list[str] | None = None, gen_lemmas: list[str] | None = None):
-        ok, out = make_all(clean=(self.tier == 'thorough' and os.environ.get('VERIF_CLEAN') == '1'), prop=self.prop)
+        ok, out = make_all(clean=(self.tier == 'thorough' and os.environ.get('VERIF_CLEAN') == '1'), prop=self.prop, dirs=dirs)
         self.checker_cmd = (
             f"cd /verif/coq && coq_makefile -f _CoqProject -o Makefile && make -j16 (full .vo build); "
             f"coqc -Q theories Verif theories/{self.prop}/Properties_{self.prop}.v (Print Assumptions under every Theorem)"
